@@ -7,7 +7,8 @@
                   the capture files (echo lines on stderr are not tokens);
    op = "names" : the names of the tasks run one after the other, the indices
                   of those that were accepted, the directory each of them
-                  reported and the file system found below the output root.
+                  reported and the file system found below the output root
+                  (a component the names do not explain is one atom "?...").
 
    The clauses of RunCmd are evaluated on the observation; every failing
    <<case id, clause>> is collected (total verdict). *)
@@ -49,7 +50,7 @@ NamesFailing(c) ==
    LET ns == c.names  A == ObsAccepted(c)  D == ObsDirs(c)  F == ObsFs(c) IN
    {cl \in {"Rejected", "Fs", "DirBelowRoot", "DirInjective", "DirNotCapture", "DirAsSpecified"} :
        \/ cl = "Rejected" /\ ~R!InvalidRejected(ns, A)
-       \/ cl = "Fs" /\ ~R!SameFs(F, R!FsOf(ns, Len(ns)))
+       \/ cl = "Fs" /\ ~R!FsCovers(F, R!FsOf(ns, Len(ns)), R!DirsOf(ns, Len(ns)))
        \/ cl = "DirBelowRoot" /\ ~R!DirBelowRoot(D)
        \/ cl = "DirInjective" /\ ~R!DirInjective(D)
        \/ cl = "DirNotCapture" /\ ~(R!DirNotCapture(D) /\ R!FsConsistent(F))
